@@ -31,8 +31,13 @@ TRUSTED = ['coq/Spec/RV32Exec.v + RV32Decode.v (my reading of the RISC-V unprivi
            'tools/props/c07.py exporter of the Operand flags (cross-checked on every run against used_registers/'
            'defined_registers of real instances)',
            'tools/props/c08_trace.py (descriptor table shared with C08)']
-ASSUMPTIONS = ['label operands are analysed with the unrelocated (zero) immediate field; the register sets of an RV32 instruction '
-               'do not depend on its immediate (exec_frame/exec_reads hold for every immediate)',
+ASSUMPTIONS = ['label/relocation forms (Bl, B, branches, Adru/Adrl, Adrurel/Adrlrel/Loadlrel): the Coq theorems quantify over ALL '
+               'operand values and all byte strings that decode to the printed instruction, so the relocated immediate is an '
+               'arbitrary operand; the oracle executes them with the real relocation applied (symbol 0x107f4, instruction 0x10000)',
+               'Loadlrel (not well-formed in C08: rd named twice) is covered through nonwf_riscv (c07_rv_frame_reads_nonwf)',
+               'instance stage: every instruction instance emitted for a C program + generated IR functions (riscv and riscv:rvc, after '
+               'register allocation, pseudo instructions rendered) is executed against its own used/defined registers; 16-bit RVC '
+               'instances are recorded in evidence as seen-but-not-executable (no RVC semantics here)',
                'the per-operand theorems assume the C08 decode agreement at the operand tuple (proved by C08 on rv_domain)']
 
 COVER_NOTE = 'RISC-V RV32IM base only; no RVC, no F, no CSR/system; no other targets'
@@ -191,6 +196,14 @@ def export(ctx):
         if why is not None:
             rwbad.append((n, why))
         rows.append((d['cls'], fl))
+    # traced classes outside C08's well-formed table (e.g. Loadlrel, whose syntax names rd twice)
+    nrows, nbad = [], []
+    for n, d in enumerate(bad):
+        fl = class_flags(d)
+        why = py_class_ok(fl, is_covered(d, c08))
+        if why is not None:
+            nbad.append((n, why))
+        nrows.append((d['cls'], fl))
     crow, facts = call_rows()
     callbad = call_rows_bad(crow, good, T)
     b = lambda x: 'true' if x else 'false'   # noqa: E731
@@ -203,6 +216,11 @@ def export(ctx):
                for c, fl in rows),
            '(* covered classes whose flags do not declare an access the ISA semantics performs *)',
            'Definition rw_bad_riscv : list nat := [%s]%%nat.' % '; '.join(str(n) for n, _ in rwbad),
+           '(* entry n belongs to entry n of Gen.Tab_isa_riscv.nonwf_riscv *)',
+           'Definition rw_nonwf_riscv : list rwclass := [\n  %s].' % ';\n  '.join(
+               '(%s, [%s])' % (T.cstr(c), '; '.join('mkRW %s %s %s %s' % (T.cstr(nm), b(r), b(rd), b(wr)) for nm, r, rd, wr in fl))
+               for c, fl in nrows),
+           'Definition rw_nonwf_bad_riscv : list nat := [%s]%%nat.' % '; '.join(str(n) for n, _ in nbad),
            '(* the real instructions of RiscvArch.gen_call (8 i32 arguments in x18..x25, i32 result to x26) *)',
            'Definition rw_calls_riscv : list callrow := [\n  %s].' % ';\n  '.join(
                'mkCall %s %s %s %s %s' % (T.cstr(c), zl(o), zl(u), zl(dd), zl(cl)) for c, o, u, dd, cl in crow),
@@ -215,6 +233,7 @@ def export(ctx):
            'Definition rv_ret_reg : Z := %d.' % facts['rv']]
     ctx.write_gen('Tab_rv_rw', '\n'.join(out) + '\n')
     return dict(T=T, c08=c08, good=good, rows=rows, rwbad=rwbad, calls=crow, callbad=callbad, facts=facts,
+                bad=bad, nrows=nrows, nbad=nbad,
                 nonwf=[d['cls'] for d in bad], custom=[c for c, _ in custom], skipped=skipped)
 
 
@@ -225,9 +244,13 @@ def regen(ctx):
 # ------------------------------------------------------------------ helpers for correspondence / search
 def rand_ops(rng, d):
     ops = []
+    byname = {}
     for o in d['ops']:
-        if o['kind'] == 'reg':
+        if o['kind'] == 'reg' and o['name'] in byname:
+            ops.append(byname[o['name']])      # an operand named twice in the syntax is one attribute
+        elif o['kind'] == 'reg':
             ops.append(rng.choice(o['nums']))
+            byname[o['name']] = ops[-1]
         elif o['kind'] == 'imm':
             lo, hi = (-(1 << (o['width'] - 1)), 1 << (o['width'] - 1)) if o['signed'] and o['width'] >= 1 else (0, 1 << o['width'])
             ops.append((rng.randrange(lo, hi) + o['sub']) * o['div'])
@@ -261,86 +284,230 @@ def state_pair_obs(s):
     return (tuple(s.regs), s.pc, tuple(sorted(s.mem.items())))
 
 
+SYM_ADDR, INS_ADDR = 0x000107f4, 0x00010000     # distance fits the B-type range
+
+
+def relocated_bytes(ins, sym=SYM_ADDR, pc=INS_ADDR):
+    """encode() bytes with the instruction's relocations applied the way the linker does (symbol at sym, instruction at pc)"""
+    bs = bytes(ins.encode())
+    try:
+        relocs = list(ins.relocations())
+    except Exception:   # noqa: BLE001
+        relocs = []
+    for r in relocs:
+        bs = bytes(r.apply(sym, bytearray(bs), pc + getattr(r, 'offset', 0)))
+    return bs, bool(relocs)
+
+
+def regnums(regs):
+    out = set()
+    for r in regs:
+        n = getattr(r, 'num', None)
+        if n is None:
+            n = getattr(r, 'color', None)
+        if isinstance(n, int):
+            out.add(n)
+    return out
+
+
+def exec_checks(ctx, rng, dec, uses, defs, n_st, meta, pc=None):
+    """frame + non-interference of one decoded instruction against declared uses/defs on n_st random states.
+    meta: dict(cls, printed, bytes, ops, where).  Returns (evaluations, violation reported?)"""
+    n_eval = 0
+    for _k in range(n_st):
+        s0 = rand_state(rng)
+        if pc is not None:
+            s0.pc = pc
+        s0.mem = HashedMem(rng.getrandbits(20))
+        s1 = s0.copy()
+        s1.mem = HashedMem(s0.mem.seed)
+        RV.exec1(dec, s1)
+        n_eval += 1
+        state = {'regs': s0.regs, 'pc': s0.pc, 'mem': 'byte(a) = (a*2654435761 + %d*40503 + (a>>7)) & 255' % s0.mem.seed}
+        undeclared = [r for r in range(32) if s0.regs[r] != s1.regs[r] and r not in defs]
+        if undeclared:
+            ctx.violation({'fn': 'defined_registers', 'class': meta['cls'], 'args': meta['ops'], 'printed': meta['printed'],
+                           'bytes': meta['bytes'], 'decoded': [dec[0], dec[1]], 'where': meta['where'],
+                           'key': 'frame:%s' % meta['cls'],
+                           'what': 'executing the instruction changes register(s) x%s which it does not declare as written'
+                                   % ',x'.join(map(str, undeclared)),
+                           'expected': 'changed registers within defined_registers+clobbers %s' % sorted(defs),
+                           'actual': {'x%d' % r: [s0.regs[r], s1.regs[r]] for r in undeclared}, 'state': state,
+                           'how_to_replay': replay_cmd(meta['cls'], meta['ops'])})
+            return n_eval, True
+        cand = [r for r in range(1, 32) if r not in uses]
+        named = [r for r in dec[1][:3] if isinstance(r, int) and 0 < r < 32 and r not in uses]
+        r = rng.choice(named) if named and rng.random() < 0.8 else rng.choice(cand)
+        s2 = s0.copy()
+        s2.mem = HashedMem(s0.mem.seed)
+        s2.regs[r] = RV.u32(s0.regs[r] ^ rng.choice([1, 0x80000000, 0xffffffff, rng.getrandbits(32) | 1]))
+        s3 = s2.copy()
+        s3.mem = HashedMem(s0.mem.seed)
+        RV.exec1(dec, s3)
+        n_eval += 1
+        diff = ['x%d' % q for q in range(32)
+                if s1.regs[q] != s3.regs[q] and not (s1.regs[q] == s0.regs[q] and s3.regs[q] == s2.regs[q])]
+        if s1.pc != s3.pc:
+            diff.append('pc')
+        if dict(s1.mem) != dict(s3.mem):
+            diff.append('mem')
+        if diff:
+            def obs(s, q):
+                return s.pc if q == 'pc' else (s.regs[int(q[1:])] if q[0] == 'x' else sorted(dict(s.mem).items()))
+            ctx.violation({'fn': 'used_registers', 'class': meta['cls'], 'args': meta['ops'], 'printed': meta['printed'],
+                           'bytes': meta['bytes'], 'decoded': [dec[0], dec[1]], 'where': meta['where'], 'key': 'reads:%s' % meta['cls'],
+                           'what': 'two states that differ only in x%d (not in used_registers %s) give different %s'
+                                   % (r, sorted(uses), ','.join(diff)),
+                           'expected': 'results independent of undeclared register x%d' % r,
+                           'actual': {'x%d' % r: [s0.regs[r], s2.regs[r]], 'after': {q: [obs(s1, q), obs(s3, q)] for q in diff}},
+                           'state': state, 'how_to_replay': replay_cmd(meta['cls'], meta['ops'])})
+            return n_eval, True
+    return n_eval, False
+
+
 def search(ctx, info=None, deep=True):
-    """frame / non-interference of the real bytes of every covered class under the Python twin of RV32Exec"""
+    """frame / non-interference of the real (relocated) bytes of every traced class - the well-formed table and the
+    classes C08 lists as not well-formed - under the Python twin of RV32Exec"""
     if info is None:
         info = export(ctx)
     T, c08 = info['T'], info['c08']
     rng = ctx.rng
     n_ops, n_st = (12, 6) if deep else (4, 3)
     n_eval = 0
-    for n, d in enumerate(info['good']):
-        exp = is_covered(d, c08)
-        if exp is None:
+    reloc_classes = set()
+    for d in list(info['good']) + list(info['bad']):
+        if is_covered(d, c08) is None:
             continue
-        fl = info['rows'][n][1]
         for _ in range(n_ops):
             ops = rand_ops(rng, d)
             try:
                 ins = T.instantiate(d['pycls'], d['vindex'], ops)
-                bs = list(bytes(ins.encode()))
-                uses = {r.num for r in ins.used_registers}
-                defs = {r.num for r in ins.defined_registers} | {r.num for r in ins.clobbers}
+                bs, rel = relocated_bytes(ins)
+                uses = regnums(ins.used_registers)
+                defs = regnums(ins.defined_registers) | regnums(ins.clobbers)
             except Exception:   # noqa: BLE001
                 continue
-            dec = RV.decode(bs)
+            if rel:
+                reloc_classes.add(d['cls'])
+            dec = RV.decode(list(bs))
             if dec is None or dec[0] not in FMT_ROLES:
                 continue
-            for _k in range(n_st):
-                s0 = rand_state(rng)
-                s0.mem = HashedMem(rng.getrandbits(20))
-                s1 = s0.copy()
-                s1.mem = HashedMem(s0.mem.seed)
-                RV.exec1(dec, s1)
-                n_eval += 1
-                changed = [r for r in range(32) if s0.regs[r] != s1.regs[r]]
-                undeclared = [r for r in changed if r not in defs]
-                if undeclared:
-                    ctx.violation({'fn': 'defined_registers', 'class': d['cls'], 'args': ops, 'printed': str(ins),
-                                   'bytes': bytes(bs).hex(), 'decoded': [dec[0], dec[1]],
-                                   'key': 'frame:%s' % d['cls'],
-                                   'what': 'executing the instruction changes register(s) x%s which it does not declare as written'
-                                           % ',x'.join(map(str, undeclared)),
-                                   'expected': 'changed registers within defined_registers+clobbers %s' % sorted(defs),
-                                   'actual': {'x%d' % r: [s0.regs[r], s1.regs[r]] for r in undeclared},
-                                   'state': {'regs': s0.regs, 'pc': s0.pc, 'mem': 'byte(a) = (a*2654435761 + %d*40503 + (a>>7)) & 255' % s0.mem.seed},
-                                   'how_to_replay': replay_cmd(d['cls'], ops)})
-                    break
-                # non-interference: flip one register outside uses
-                cand = [r for r in range(1, 32) if r not in uses]
-                # prefer the registers the decoded instruction names
-                named = [r for r in dec[1][:3] if isinstance(r, int) and 0 < r < 32 and r not in uses]
-                r = rng.choice(named) if named and rng.random() < 0.8 else rng.choice(cand)
-                s2 = s0.copy()
-                s2.mem = HashedMem(s0.mem.seed)
-                s2.regs[r] = RV.u32(s0.regs[r] ^ rng.choice([1, 0x80000000, 0xffffffff, rng.getrandbits(32) | 1]))
-                s3 = s2.copy()
-                s3.mem = HashedMem(s0.mem.seed)
-                RV.exec1(dec, s3)
-                n_eval += 1
-                diff = []
-                for q in range(32):
-                    if s1.regs[q] != s3.regs[q] and not (s1.regs[q] == s0.regs[q] and s3.regs[q] == s2.regs[q]):
-                        diff.append('x%d' % q)
-                if s1.pc != s3.pc:
-                    diff.append('pc')
-                if dict(s1.mem) != dict(s3.mem):
-                    diff.append('mem')
-                if diff:
-                    ctx.violation({'fn': 'used_registers', 'class': d['cls'], 'args': ops, 'printed': str(ins),
-                                   'bytes': bytes(bs).hex(), 'decoded': [dec[0], dec[1]], 'key': 'reads:%s' % d['cls'],
-                                   'what': 'two states that differ only in x%d (not in used_registers %s) give different %s'
-                                           % (r, sorted(uses), ','.join(diff)),
-                                   'expected': 'results independent of undeclared register x%d' % r,
-                                   'actual': {'x%d' % r: [s0.regs[r], s2.regs[r]],
-                                              'after': {q: [getattr(s1, 'pc') if q == 'pc' else (s1.regs[int(q[1:])] if q[0] == 'x' else sorted(dict(s1.mem).items())),
-                                                            getattr(s3, 'pc') if q == 'pc' else (s3.regs[int(q[1:])] if q[0] == 'x' else sorted(dict(s3.mem).items()))]
-                                                        for q in diff}},
-                                   'state': {'regs': s0.regs, 'pc': s0.pc, 'mem': 'byte(a) = (a*2654435761 + %d*40503 + (a>>7)) & 255' % s0.mem.seed},
-                                   'how_to_replay': replay_cmd(d['cls'], ops)})
-                    break
+            k, hit = exec_checks(ctx, rng, dec, uses, defs, n_st,
+                                 dict(cls=d['cls'], printed=str(ins), bytes=bs.hex(), ops=ops, where='class table'), pc=INS_ADDR if rel else None)
+            n_eval += k
+            if hit:
+                break
     ctx.cov['stages']['search_executions'] = n_eval
+    ctx.cov['stages']['classes_executed_with_relocation_applied'] = sorted(reloc_classes)
     ctx.cov['evaluations'] += n_eval
+
+
+C_SOURCE = """
+int counter;
+int table[8];
+typedef int (*fn_t)(int);
+int twice(int a) { return a * 2; }
+fn_t hook = twice;
+int work(int a, unsigned b, char *p, short s) {
+  int i;
+  for (i = 0; i < a; i++) { counter += table[i & 7] / (a | 1); p[i] = (char)(b >> 3); }
+  if (b % 3 > 1) counter -= hook(a);
+  if (s < 0) counter = -counter + ~a;
+  return counter ^ (int)(b << 2) ^ twice(s);
+}
+"""
+
+
+def emitted_instances(march, modules):
+    """every instruction instance the code generator emits (after register allocation), pseudo instructions rendered"""
+    from ppci import api
+    from ppci.binutils.outstream import OutputStream
+    from ppci.arch.encoding import Instruction
+    from ppci.arch.generic_instructions import ArtificialInstruction
+
+    class Recorder(OutputStream):
+        def __init__(self):
+            super().__init__()
+            self.items = []
+
+        def do_emit(self, item):
+            self.items.append(item)
+    out = []
+
+    def add(item, depth=0):
+        if isinstance(item, ArtificialInstruction) and depth < 4:
+            try:
+                for x in item.render():
+                    add(x, depth + 1)
+            except Exception:   # noqa: BLE001
+                pass
+            return
+        if isinstance(item, Instruction) and type(item).__module__.startswith('ppci.arch.riscv'):
+            out.append(item)
+    for m in modules:
+        rec = Recorder()
+        api.ir_to_stream(m, march, rec)
+        for it in rec.items:
+            add(it)
+    return out
+
+
+def instance_stage(ctx, info):
+    """annotations of every instruction INSTANCE in generated code (riscv and riscv:rvc) against the interpreter"""
+    import io
+    from ppci import api
+    from props import c05_e2e as E
+    rng = ctx.rng
+    table_classes = {d['cls'] for d in list(info['good']) + list(info['bad']) if is_covered(d, info['c08'])}
+    stats = {}
+    for march in ('riscv', 'riscv:rvc'):
+        mods = [api.c_to_ir(io.StringIO(C_SOURCE), march)]
+        for _ in range(6 if ctx.quick() else 40):
+            mods.append(E.gen_function(rng, 3)[0])
+        try:
+            instances = emitted_instances(march, mods)
+        except Exception as ex:   # noqa: BLE001
+            stats[march] = {'error': '%s: %s' % (type(ex).__name__, str(ex)[:100])}
+            continue
+        seen, per_class, uncovered, n_eval = set(), {}, {}, 0
+        for ins in instances:
+            cls = type(ins).__name__
+            if cls in ('Dcd2',) or not getattr(type(ins), 'tokens', None):
+                continue
+            try:
+                bs, rel = relocated_bytes(ins)
+            except Exception as ex:   # noqa: BLE001
+                uncovered[cls] = 'encode: %s' % type(ex).__name__
+                continue
+            key = (cls, bs)
+            if key in seen:
+                continue
+            seen.add(key)
+            dec = RV.decode(list(bs)) if len(bs) == 4 else None
+            if dec is None or dec[0] not in FMT_ROLES:
+                uncovered[cls] = 'not an RV32I/M base instruction for the interpreter (%d bytes)' % len(bs)
+                continue
+            per_class[cls] = per_class.get(cls, 0) + 1
+            try:
+                uses = regnums(ins.used_registers)
+                defs = regnums(ins.defined_registers) | regnums(ins.clobbers)
+            except Exception as ex:   # noqa: BLE001
+                uncovered[cls] = 'registers: %s' % type(ex).__name__
+                continue
+            try:
+                printed = str(ins)
+            except Exception:   # noqa: BLE001  (riscv cannot print allocated virtual registers)
+                printed = '%s %s' % (cls, [sorted(regnums([getattr(ins, fa._name)])) or getattr(ins, fa._name)
+                                            for fa in type(ins).syntax.formal_arguments])
+            k, _hit = exec_checks(ctx, rng, dec, uses, defs, 3,
+                                  dict(cls=cls, printed=printed, bytes=bs.hex(), ops=[], where='instance in code generated for ' + march),
+                                  pc=INS_ADDR if rel else None)
+            n_eval += k
+        stats[march] = {'instances_recorded': len(instances), 'distinct_checked': sum(per_class.values()),
+                        'classes_checked': sorted(per_class), 'classes_not_in_class_table': sorted(set(per_class) - table_classes),
+                        'classes_seen_but_not_executable': uncovered, 'executions': n_eval}
+        ctx.cov['evaluations'] += n_eval
+    ctx.cov['stages']['instances'] = stats
 
 
 def replay_cmd(cls, ops):
@@ -393,7 +560,17 @@ def run(ctx):
     if ctx.build(['Gen/Tab_rv_rw.vo', 'Lib/Val.vo'])[0]:
         correspondence(ctx, info)
     # exported failing classes (twin of the Coq class check): report with a concrete pair of states from the search
-    search(ctx, info, (not ctx.quick()) or bool(ctx.failed_stages) or bool(info['rwbad']))
+    search(ctx, info, (not ctx.quick()) or bool(ctx.failed_stages) or bool(info['rwbad']) or bool(info['nbad']))
+    try:
+        instance_stage(ctx, info)
+    except Exception as ex:   # noqa: BLE001
+        ctx.failed_stages.append(('instances', 'instance stage crashed: %r' % (ex,)))
+    for n, why in info['nbad']:
+        d = info['bad'][n]
+        ctx.violation({'fn': 'Operand flags', 'class': d['cls'], 'args': [n], 'key': 'flags:%s' % d['cls'],
+                       'what': 'class %s: the decoded instruction accesses operand %d in role %s, which the Operand flags %r do not declare'
+                               % (d['cls'], why[1], {'W': 'write', 'R': 'read'}.get(why[0], why[0]), info['nrows'][n][1]),
+                       'expected': 'flag declared', 'actual': info['nrows'][n][1], 'how_to_replay': replay_cmd(d['cls'], [])})
     for n, why in info['rwbad']:
         d = info['good'][n]
         if not any(v.get('class') == d['cls'] for v in getattr(ctx, '_c07_reported', [])):
@@ -422,7 +599,11 @@ MANIFEST = {
             'reference-decoder agreement, which C08 proves on a bounded operand domain: the unbounded theorems take it as a '
             'hypothesis, the _bounded ones are hypothesis-free on that domain. For the call sequence of gen_call the exported real '
             'used/defined/clobber sets are checked against the executed instruction, and allocatable registers are shown to be '
-            'partitioned into callee_save and the call\'s clobbers. Not covered: CSR/system/F/RVC classes, what a callee does, and '
+            'partitioned into callee_save and the call\'s clobbers. Label/relocation forms (jal/j, branches, lui/addi and '
+            'auipc/addi/lw address pairs incl. Loadlrel) are inside the theorems (the relocated immediate is an arbitrary operand) '
+            'and are executed by the oracle with the relocation applied; additionally every instruction INSTANCE emitted for a C '
+            'program and generated IR functions (riscv and riscv:rvc) is checked against its own used/defined registers by the '
+            'interpreter (oracle stage only; 16-bit RVC instances are listed in evidence as not executable). Not covered: CSR/system/F/RVC classes, what a callee does, and '
             'all other targets (ARM, Thumb, m68k, mips, x86_64) - no formal ISA semantics is available in the sandbox.',
     'note': 'trusted: Coq kernel; my reading of the RISC-V manual in Spec/RV32Decode.v + Spec/RV32Exec.v (no emulator to validate it; a '
             'Python twin executes compiled code in C05 and agrees with the IR interpreter); the flag exporter (cross-checked per run '
